@@ -160,6 +160,9 @@ class Component(ModelElement):
         :param kwargs:
         :return:
         """
+        if kwargs.get('name') is not None:
+            # as set_property('name') / rename(): the new name must be free in the element's scope
+            self._check_name_unique(kwargs['name'])
         comp_sliver = ComponentSliver()
         comp_sliver.set_properties(**kwargs)
         # write into the graph
